@@ -97,6 +97,12 @@ def static_case(ctx, rng, idx):
     if same_count_edit(rng, h):
         ctx.event("re-evaluated-after-in-place-edit")
         static_eval(ctx, rng, idx, h)
+    if rng.random() < 0.3:  # the same hypergraph reached through other calls (copy of a copy / clear() and re-insertion)
+        from ..mutate import second_order
+
+        lab, g2 = second_order(rng, h)
+        ctx.event("re-evaluated-on-" + lab)
+        static_eval(ctx, rng, idx, g2)
 
 
 def static_eval(ctx, rng, idx, h):
